@@ -258,7 +258,15 @@ def run_family(exe, family, args=(), seed=1, tier="quick", timeout=900, extra_en
     env = dict(GOENV, VERIF_SEED=str(seed), VERIF_TIER=tier)
     if extra_env:
         env.update(extra_env)
-    p = subprocess.run([exe, family] + list(args), env=env, stdout=subprocess.PIPE, stderr=subprocess.PIPE, timeout=timeout)
+    try:
+        p = subprocess.run([exe, family] + list(args), env=env, stdout=subprocess.PIPE, stderr=subprocess.PIPE, timeout=timeout)
+    except subprocess.TimeoutExpired as te:
+        # the harness did not finish: report it as a failed run (with what it had printed), never as a crash of the check
+        class _P:
+            returncode = -9
+            stdout = te.stdout or b""
+            stderr = (te.stderr or b"") + ("\nharness family %s did not finish within %ss" % (family, timeout)).encode()
+        p = _P()
     cases = []
     bad = []
     # one record per "\n"-terminated line; str.splitlines() would also split at U+0085 / U+2028 inside JSON strings
